@@ -183,7 +183,7 @@ pub fn cell(col: &ArrayRef, i: usize, unit: &str) -> i64 {
     } else {
         col.clone()
     };
-    if col.is_null(i) {
+    if col.is_null(i) || *col.data_type() == DataType::Null {
         return NULLV;
     }
     let scaled = |x: f64, s: f64| -> i64 {
@@ -391,6 +391,70 @@ async fn execute_logical(ctx: &ExecutionContext, logical: &query_engine::planner
     Ok((physical.schema(), all))
 }
 
+/// C13: cut the table's enumerated splits into sub-row-group ranges of `cut` rows, assign them to
+/// `nodes` shards by a seeded random assignment (any partition, not only LPT's), run the statement on
+/// every shard context the coordinator's own constructor builds, and return the concatenation.
+async fn run_shard_union(
+    ctx: &ExecutionContext,
+    sql: &str,
+    table: &str,
+    nodes: usize,
+    cut: i64,
+    seed: u64,
+    info: &std::sync::Mutex<Value>,
+) -> query_engine::Result<(SchemaRef, Vec<RecordBatch>)> {
+    use query_engine::distributed::coordinator::{shard_context, splits_of};
+    use query_engine::distributed::splits::{Assignment, Split, SplitSet};
+    use rand::{Rng, SeedableRng};
+    let set0 = splits_of(ctx, table, nodes)?;
+    let mut splits: Vec<Split> = Vec::new();
+    for s in &set0.splits {
+        let mut off = 0i64;
+        while off < s.num_rows {
+            let n = cut.max(1).min(s.num_rows - off);
+            let mut p = s.clone();
+            p.row_offset = s.row_offset + off;
+            p.num_rows = n;
+            p.bytes = (s.bytes as i128 * n as i128 / s.num_rows.max(1) as i128) as u64;
+            splits.push(p);
+            off += n;
+        }
+    }
+    let set = SplitSet { table: set0.table.clone(), splits, total_bytes: set0.total_bytes, total_rows: set0.total_rows, target_split_bytes: set0.target_split_bytes };
+    let mut rng = rand::rngs::StdRng::seed_from_u64(seed);
+    let mut per_node: Vec<Vec<usize>> = vec![Vec::new(); nodes];
+    for i in 0..set.splits.len() {
+        per_node[rng.gen_range(0..nodes)].push(i);
+    }
+    let asg = Assignment {
+        nodes,
+        node_bytes: per_node.iter().map(|v| v.iter().map(|&i| set.splits[i].bytes).sum()).collect(),
+        node_rows: per_node.iter().map(|v| v.iter().map(|&i| set.splits[i].num_rows).sum()).collect(),
+        node_splits: per_node.iter().map(|v| v.len()).collect(),
+        total_bytes: set.total_bytes,
+        per_node,
+    };
+    let mut all = Vec::new();
+    let mut schema = None;
+    let mut whole_files = 0;
+    let mut shard_rows = Vec::new();
+    for i in 0..nodes {
+        let (sctx, _stats) = shard_context(ctx, table, &set, &asg, i)?;
+        if let Some(p) = sctx.table_provider(table) {
+            if p.parquet_files().is_some() {
+                whole_files += 1;
+            }
+        }
+        let r = sctx.sql(sql).await?;
+        shard_rows.push(r.row_count);
+        schema = Some(r.schema.clone());
+        all.extend(r.batches);
+    }
+    *info.lock().unwrap() = json!({"splits": set.splits.len(), "nodes": nodes, "cut": cut, "shards_exposing_whole_files": whole_files,
+                                    "shard_rows": shard_rows, "ranges": set.splits.iter().map(|s| json!([s.file, s.row_group, s.row_offset, s.num_rows])).collect::<Vec<_>>()});
+    Ok((schema.unwrap_or_else(|| Arc::new(Schema::empty())), all))
+}
+
 async fn run_unoptimized(ctx: &ExecutionContext, sql: &str) -> query_engine::Result<(SchemaRef, Vec<RecordBatch>)> {
     use query_engine::physical::PhysicalPlanner;
     let logical = ctx.logical_plan(sql)?;
@@ -428,6 +492,7 @@ pub fn run_one(rt: &tokio::runtime::Runtime, tables: &[TableData], sql: &str, un
     };
     let opt_none = cfg.get("opt").and_then(|v| v.as_str()) == Some("none");
     let dist = cfg.get("dist").and_then(|v| v.as_u64());
+    let shard_union: Option<Value> = cfg.get("shard_union").cloned();
     let rules_opt: Option<Vec<String>> = cfg.get("rules").and_then(|v| v.as_array()).map(|a| a.iter().map(|x| x.as_str().unwrap().to_string()).collect());
     let sql2 = sql.to_string();
     let ctxref = &built.ctx;
@@ -436,7 +501,10 @@ pub fn run_one(rt: &tokio::runtime::Runtime, tables: &[TableData], sql: &str, un
     let res = std::panic::catch_unwind(std::panic::AssertUnwindSafe(|| {
         rt.block_on(async {
             let fut = async {
-                if let Some(rules) = rules_opt.as_ref() {
+                if let Some(su) = shard_union.as_ref() {
+                    run_shard_union(ctxref, &sql2, su["table"].as_str().unwrap_or("t0"), su["nodes"].as_u64().unwrap_or(2) as usize,
+                                    su["cut"].as_i64().unwrap_or(1), su["seed"].as_u64().unwrap_or(1), &dist_info).await
+                } else if let Some(rules) = rules_opt.as_ref() {
                     run_with_rules(ctxref, &sql2, rules, &dist_info).await
                 } else if let Some(n) = dist {
                     let (s, b, info) = run_distributed(builtref, cfg, workdir, &sql2, n as usize).await?;
@@ -458,7 +526,9 @@ pub fn run_one(rt: &tokio::runtime::Runtime, tables: &[TableData], sql: &str, un
     let mut meta = json!({"cfg": cfg["name"], "paths": paths});
     let di = dist_info.lock().unwrap().clone();
     if !di.is_null() {
-        if rules_opt.is_some() {
+        if shard_union.is_some() {
+            meta["shards"] = di;
+        } else if rules_opt.is_some() {
             meta["plan"] = di;
         } else {
             meta["dist"] = di;
@@ -479,7 +549,13 @@ pub fn run_one(rt: &tokio::runtime::Runtime, tables: &[TableData], sql: &str, un
         Ok(Ok(Err(e))) => json!({"k": "err", "cls": err_class(&e), "msg": format!("{e}").chars().take(300).collect::<String>()}),
         Ok(Ok(Ok((schema, batches)))) => {
             meta["schema"] = schema_json(&schema);
-            let bschemas: Vec<Value> = batches.iter().take(3).map(|b| schema_json(&b.schema())).collect();
+            if dist.is_none() && rules_opt.is_none() && shard_union.is_none() && !opt_none {
+                if let Ok(Ok(p)) = std::panic::catch_unwind(std::panic::AssertUnwindSafe(|| built.ctx.physical_plan(sql))) {
+                    meta["plan_schema"] = schema_json(&p.schema());
+                }
+            }
+            let bschemas: Vec<Value> = batches.iter().take(4).map(|b| schema_json(&b.schema())).collect();
+            meta["batch_rows"] = json!(batches.iter().map(|b| b.num_rows()).collect::<Vec<_>>());
             meta["batch_schemas"] = Value::Array(bschemas);
             match rows_of(&batches, units) {
                 Ok(rows) => json!({"k": "rows", "rows": rows}),
